@@ -413,27 +413,55 @@ def applyMorph : Morph → List Cell → List Cell
   | .dilate k, cs => iter dilate1 k cs
   | .erode k, cs => iter erode1 k cs
 
+/-- `VoxelRegion.dilation` on a dense grid of the given shape: scipy's morphology keeps the shape of its input, so
+    unless the grid is padded by the number of passes before dilating (`pads`, commit e7c606cc) the dilated
+    set is clipped to the original grid.  Erosion never leaves the grid. -/
+def applyMorphGrid (pads : Bool) (shape : Nat × Nat × Nat) (m : Morph) (cs : List Cell) : List Cell :=
+  match m with
+  | .dilate _ =>
+    if pads then applyMorph m cs
+    else (applyMorph m cs).filter fun c =>
+      decide (0 ≤ c.1) && decide (c.1 < shape.1) && decide (0 ≤ c.2.1) && decide (c.2.1 < shape.2.1)
+        && decide (0 ≤ c.2.2) && decide (c.2.2 < shape.2.2)
+  | _ => applyMorph m cs
+
 /-! ## §4 the retry loops -/
 
 structure RetryCfg where
   /-- the call inside the loop is given `current_pitch` (true) or the constant `PRUNING_PITCH` (false) -/
   passesCurrentPitch : Bool
-  /-- the callee has a path that cannot return `None` once the pitch reaches 1 (the BoxRegion fast
-      path of `_bufferOverapproximate`), or the loop gives up there -/
-  stopsAtMaxPitch : Bool
+  /-- the callee has a path that cannot return `None` once the pitch *it is given* reaches 1 (the
+      `BoxRegion` fast path of `_bufferOverapproximate`) -/
+  calleeTotalAtMax : Bool
+  /-- the loop body gives up with `if current_pitch >= 1: break` after the call (commit 8b16337f) -/
+  breaksAtMax : Bool
   deriving DecidableEq, Repr
 
 /-- `current_pitch = min(2 * current_pitch, 1)` -/
 def nextPitch (cur : Rat) : Rat := if 2 * cur < 1 then 2 * cur else 1
+
+/-- the pitch handed to the callee in one iteration -/
+def usedPitch (cfg : RetryCfg) (p0 cur : Rat) : Rat := if cfg.passesCurrentPitch then cur else p0
+
+/-- one iteration leaves the loop: the callee cannot fail, or the conversion succeeds, or the loop breaks -/
+def exits (cfg : RetryCfg) (conv : Rat → Bool) (p0 cur : Rat) : Bool :=
+  (cfg.calleeTotalAtMax && decide (usedPitch cfg p0 cur ≥ 1)) || conv (usedPitch cfg p0 cur)
+    || (cfg.breaksAtMax && decide (cur ≥ 1))
 
 /-- `while result is None:` with `conv pitch` = "the voxel→mesh conversion at this pitch yields a volume".
     Returns the number of loop iterations executed, or `none` when the fuel runs out. -/
 def retryLoop (cfg : RetryCfg) (conv : Rat → Bool) (p0 : Rat) : Nat → Rat → Option Nat
   | 0, _ => none
   | fuel + 1, cur =>
-    let used := if cfg.passesCurrentPitch then cur else p0
-    if (cfg.stopsAtMaxPitch && decide (used ≥ 1)) || conv used then some 1
+    if exits cfg conv p0 cur then some 1
     else (retryLoop cfg conv p0 fuel (nextPitch cur)).map (· + 1)
+
+/-- the pitches handed to the callee, in order (at most `fuel` of them) -/
+def retryTrace (cfg : RetryCfg) (conv : Rat → Bool) (p0 : Rat) : Nat → Rat → List Rat
+  | 0, _ => []
+  | fuel + 1, cur =>
+    usedPitch cfg p0 cur ::
+      (if exits cfg conv p0 cur then [] else retryTrace cfg conv p0 fuel (nextPitch cur))
 
 /-! ## §5 conditioning of finite weighted distributions -/
 
